@@ -109,6 +109,12 @@ module N =
     | Gt -> n
     | _ -> n'
 
+  (** val size : coq_N -> coq_N **)
+
+  let size = function
+  | N0 -> N0
+  | Npos p -> Npos (Pos.size p)
+
   (** val pos_div_eucl : positive -> coq_N -> coq_N * coq_N **)
 
   let rec pos_div_eucl a b =
